@@ -149,6 +149,19 @@ func checkPresenceFlags(d *plenccodec.Descriptor, t reflect.Type, path string) s
 
 func c09Case(c *core.Ctx, idx int) {
 	rec := c.Rec
+	if idx%37 == 5 {
+		// presence after a codec build that failed first (see lateRecursive)
+		for k := 0; k < 4; k++ {
+			rec.Eval(1)
+			if d := lateRecursive(c.Rand(idx*4 + k)); d != "" {
+				rec.Violation("presence", "a type that refers to itself around a field whose codec is registered after a first, failed use: "+d, nil)
+				return
+			}
+			rec.Count("late_registration_presence_trials", 1)
+		}
+		rec.NonTrivial(core.Hash64("late-recursive", fmt.Sprint(idx)))
+		return
+	}
 	r := c.RandFor(idx, "type")
 	cfgs := instCfgs()
 	cfg := cfgs[idx%4]
@@ -455,7 +468,7 @@ func init() {
 	core.Register(&core.Prop{
 		ID:        "C09",
 		Technique: "presence monitor: pointer / pointer-map-value / null.* positions driven through {absent, present zero, present empty, present non-zero}; nil-ness and Valid compared across the real round trip; Descriptor ExplicitPresence flags compared with the type",
-		Rule: "structs of exactly one pointer (plain, a zero-size field before or after it) are marshalled by value and by pointer for every presence state; four damaged copies of a message are decoded (and mostly rejected) before every second good decode; every message is also decoded into the previous iteration's target; the first descriptions of a type are asked for by 4 goroutines at once in a third of the cases. A generated pointee type T, key type K (8 kinds incl. two struct keys, one with null.Int / null.Bool fields) and null type N are placed in every presence-bearing position (field, map value under zero and non-zero keys, inside a slice of structs, nested struct, pointer to struct); the pointer states absent / present-zero / present-empty / present-generated are cycled systematically, the rest of the value is boundary-biased. " +
+		Rule: "every 37th case: a type that refers to itself around a field whose type gets its codec only after a first, failed use of the type on the instance; afterwards bytes as on an instance that had the codec from the start, and every pointer to a zero value still present after a round trip. structs of exactly one pointer (plain, a zero-size field before or after it) are marshalled by value and by pointer for every presence state; four damaged copies of a message are decoded (and mostly rejected) before every second good decode; every message is also decoded into the previous iteration's target; the first descriptions of a type are asked for by 4 goroutines at once in a third of the cases. A generated pointee type T, key type K (8 kinds incl. two struct keys, one with null.Int / null.Bool fields) and null type N are placed in every presence-bearing position (field, map value under zero and non-zero keys, inside a slice of structs, nested struct, pointer to struct); the pointer states absent / present-zero / present-empty / present-generated are cycled systematically, the rest of the value is boundary-biased. " +
 			"distinct = (type, configuration, value-shape) hashes",
 		Assume: []string{"known findings D4 (pointer to nil pointer), D22 (pointer to empty repeated slice) and D24 (null.* as slice element or pointer target) are excluded from generation"},
 		Plan: func(tier string) []core.Lane {
